@@ -9,6 +9,7 @@ VERIF = os.path.dirname(os.path.dirname(os.path.abspath(__file__)))
 REPO = os.environ.get("VERIF_REPO", "/repo")
 SRC = os.path.join(REPO, "src")
 BUILD_ROOT = os.environ.get("VERIF_BUILD", os.path.join(VERIF, "build"))
+OUT = os.environ.get("VERIF_OUT", VERIF)   # where evidence/ and replay/ are written (seed matrix runs use a scratch dir)
 NCPU = int(os.environ.get("VERIF_JOBS", str(os.cpu_count() or 8)))
 
 CMAKE_DEFS = ["-DENABLE_ASM_UNDERSCORE_PREFIX", "-DENABLE_SDF", "-DENABLE_SHA1", "-DENABLE_SHA2",
@@ -462,7 +463,7 @@ def run_property(prop, obligations, tier, note="", level="other", assumptions=()
     bdir = os.path.join(BUILD_ROOT, "%s_%s_%d" % (prop, tier, os.getpid()))
     shutil.rmtree(bdir, ignore_errors=True)
     os.makedirs(bdir)
-    logdir = os.path.join(VERIF, "replay", prop)
+    logdir = os.path.join(OUT, "replay", prop)
     os.makedirs(logdir, exist_ok=True)
     obs = []
     for d in obligations:
@@ -552,8 +553,8 @@ def run_property(prop, obligations, tier, note="", level="other", assumptions=()
         "assumptions": list(assumptions),
         "wall_s": round(time.time() - t0, 2), "violations": violations,
     }
-    os.makedirs(os.path.join(VERIF, "evidence"), exist_ok=True)
-    with open(os.path.join(VERIF, "evidence", prop + ".json"), "w") as f:
+    os.makedirs(os.path.join(OUT, "evidence"), exist_ok=True)
+    with open(os.path.join(OUT, "evidence", prop + ".json"), "w") as f:
         json.dump(ev, f, indent=1)
     for r in recs:
         print("[%s] %-14s %-40s %6.1fs %s" % (prop, r["status"], r["id"], r.get("wall_s", 0), (r.get("reason") or "")[:120]))
